@@ -187,7 +187,7 @@ func runC16(p *Plan, res *Result) {
 	var docs []string
 	var history []porcupine.Operation
 	var clock int64
-	for d := 0; d < p.cfg("docs", 1); d++ {
+	for d := 0; d < max(1, p.cfg("docs", 1)); d++ {
 		data, errs := n.GQL(fmt.Sprintf(`mutation { create_User(input: {name: "d%d", age: %d, points: 1}) { _docID } }`, d, 20+d))
 		if len(errs) > 0 {
 			res.HarnessErr = fmt.Sprintf("create: %v", errs)
